@@ -172,7 +172,7 @@ PROPS["C19"] = dict(
     kani=[dict(files=["contracts/C19/c19.rs"])],
     native=[dict(files=["contracts/C19/c19_native.rs"],
                  harnesses={"c19_native_ant_colony": dict(anchor="AcoGeneration / AsPheromoneUpdate / MinMaxPheromoneUpdate",
-                            bound="BOUNDED STAND-IN, native run: 2 TSP instances (5 and 6 cities) x 4 seeds x {ant system with alpha in {1, 0, 0.25, 2}, max-min with initial trails inside / above / below the bounds} x 25 generation + evaluation + update steps")})],
+                            bound="BOUNDED STAND-IN, native run: 7 TSP instances (5 and 6 cities at length scales 1, 0.01 / 1e-4 and 1000; 2 and 3 cities) x 4 seeds x {ant system with alpha in {1, 0, 0.25, 2}, max-min with initial trails inside / above / below the bounds} x 25 generation + evaluation + update steps")})],
     min_obligations={"quick": 2, "thorough": 2},
     uncovered=["'for every pheromone state the algorithm can reach' beyond the states reached in the runs", "the sampling distribution of the tours",
                "evaporation with a symbolic factor (CBMC does not finish: float multipliers); factors {1, 0.5, 0.75, 0}"],
@@ -362,7 +362,7 @@ PROPS["C15"] = dict(
                  harnesses={"c15_native_compressed_enumeration": dict(anchor="CompressedLog::from",
                             bound="BOUNDED STAND-IN, native exhaustive enumeration: all logs of <= 3 steps x <= 3 distinct names out of 4 (68921 logs)"),
                             "c15_native_logger_json_roundtrip": dict(anchor="Logger -> Log -> to_json",
-                            bound="BOUNDED STAND-IN, native run: 512 logger configurations (loop lengths 0,1,5,6 x two periodic rules with periods 0..3 x duplicate-name rule x missing-source rule x explicit iteration-counter rule); recorded steps and the decoded JSON and CBOR exports compared with independently computed expectation")})],
+                            bound="BOUNDED STAND-IN, native run: 1024 logger configurations (loop lengths 0,1,5,6 x two periodic rules with periods 0..3 x duplicate-name rule x missing-source rule x explicit iteration-counter rule x logger directly in the loop or inside a Scope); recorded steps and the decoded JSON and CBOR exports compared with independently computed expectation")})],
     min_obligations={"quick": 7, "thorough": 7},
     uncovered=["compressed export kernel CompressedLog::from is only covered by a BOUNDED native enumeration (CBMC does not finish even on one concrete two-step log: 10 min / 22 GB; Verus rejects its &mut-capturing closure; Kani harness kept in contracts/attic/)",
                "JSON export decoding and the RON configuration export only through BOUNDED native runs; the two ACO templates are not serialised (private parameter fields, TSP instance)"],
@@ -382,8 +382,10 @@ PROPS["C01"] = dict(
                  harnesses={n: dict(anchor="StateRegistry::entry (vacant-entry paths)",
                                     bound="BOUNDED STAND-IN, native run of the generated triple with payload 0 on its concrete shape (CBMC exhausts 40 GB on std's map-entry machinery)")
                             for n in ["c01_entry_or_insert_a_e", "c01_entry_or_insert_a_e_b", "c01_entry_or_insert_a_a", "c01_entry_or_insert_a_a_b",
-                                      "c01_entry_occupied_ops_a_e", "c01_entry_occupied_ops_a_e_b"]})],
-    min_obligations={"quick": 45, "thorough": 45},
+                                      "c01_entry_occupied_ops_a_e", "c01_entry_occupied_ops_a_e_b"]}
+                            | {"c01_native_all_triples": dict(anchor="StateRegistry (all generated triples, natively)",
+                                    bound="BOUNDED STAND-IN, native run of all 152 generated triples (quick and thorough shapes) with three concrete payload assignments (all zero, distinct ascending, descending)")})],
+    min_obligations={"quick": 46, "thorough": 46},
     trusted=["std HashMap/HashSet replaced by an association list with the same interface under cfg(kani) (shim/verif_map.rs)",
              "std::cell::RefCell, better_any downcasts: exercised, not specified"],
     uncovered=["histories beyond the enumerated shapes (induction over operations is not machine-checked)", "take / panicking accessors"],
